@@ -3,8 +3,8 @@ CONSTANTS
   Threads = {1}
   CacheMode = "per row context"
   Split = FALSE
-  Programs <- Progs12_3
-INIT Init
+  Programs = 0
+INIT Init12
 NEXT Next
 INVARIANTS TypeOK ConsultedInv PrefixSumInv LastInv ScannedInv SerialInv
 PROPERTIES NonInterference NoSharedState ProgConstant
